@@ -417,14 +417,14 @@ pub fn programs(tier: &str) -> Vec<Program> {
                 jumps: vec![150, 301],
             });
         }
+        // conflict-retry exhaustion: one acquire against an adversary that performs six lease writes (2 nodes: all interleavings)
         v.push(Program {
             name: "retry-exhaustion/object-store".into(),
             backend: "object-store".into(),
             preexisting: true,
             clients: vec![
                 vec![Op::Acquire(cs(&["v1"]))],
-                vec![Op::Acquire(cs(&["a1"])), Op::Renew, Op::Complete],
-                vec![Op::Acquire(cs(&["b1"])), Op::Renew, Op::Complete],
+                vec![Op::Acquire(cs(&["a1"])), Op::Renew, Op::Complete, Op::Acquire(cs(&["a2"])), Op::Renew, Op::Fail],
             ],
             jumps: vec![],
         });
@@ -443,10 +443,9 @@ pub fn run(tier: &str) -> i32 {
     let mut seen = BTreeSet::new();
     for prog in programs(tier) {
         let three = prog.clients.len() >= 3;
-        let exhaust = prog.name.starts_with("retry");
         let cfg = ExploreConfig {
             bounds: Cost {
-                preempt: if exhaust { 12 } else if three { 3 } else { 1000 },
+                preempt: if three { 3 } else { 1000 },
                 clock: if prog.jumps.is_empty() { 0 } else if tier == "thorough" { 3 } else { 2 },
                 ..Cost::ZERO
             },
